@@ -281,3 +281,29 @@ func TestF8_SelfContainingArray(t *testing.T) {
 		}
 	}
 }
+
+// F11 (C04): KeepNames with a definition named "a/b" holding an inline object: Flatten fails on a well-formed bundle.
+func TestF11_KeepNamesSlash(t *testing.T) {
+	root := `{"swagger":"2.0","paths":{"/a":{"get":{"responses":{"200":{"description":"ok","schema":{"$ref":"#/definitions/a~1b"}}}}}},
+	"definitions":{"a/b":{"type":"object","properties":{"inner":{"type":"object","properties":{"n":{"type":"string"}}}}}}}`
+	sw := load(t, root)
+	an := analysis.New(sw)
+	if err := analysis.Flatten(analysis.FlattenOpts{Spec: an, BasePath: "/tmp/x.json", KeepNames: true}); err != nil {
+		t.Errorf("flatten with KeepNames fails on a well-formed single-document bundle: %v", err)
+	}
+}
+
+// F14 (C09): a definition named "100%zz" makes analysis.New panic.
+func TestF14_PercentName(t *testing.T) {
+	sw := load(t, `{"swagger":"2.0","paths":{},"definitions":{"100%zz":{"type":"string"}}}`)
+	noPanic(t, "New with definition 100%zz", func() { analysis.New(sw) })
+}
+
+// F14b (C09): a path template with an invalid escape makes full Flatten panic (operations index).
+func TestF14b_PercentPath(t *testing.T) {
+	sw := load(t, `{"swagger":"2.0","paths":{"/a%zz":{"get":{"operationId":"x","responses":{"200":{"description":"ok","schema":{"type":"object","properties":{"n":{"type":"string"}}}}}}}}}`)
+	noPanic(t, "New+Flatten with path /a%zz", func() {
+		an := analysis.New(sw)
+		_ = analysis.Flatten(analysis.FlattenOpts{Spec: an, BasePath: "/tmp/x.json"})
+	})
+}
